@@ -46,7 +46,49 @@ def taint_graph(ctx):
     return shared(ctx, "taint", lambda: Tn.Taint(ctx.lib, sanitizers=sanitizer_names()))
 
 
+def fmt_template_text(v):
+    """literal text of a `format_args!` template constant (rustc's byte encoding: length-prefixed literal pieces, 0xC0.. placeholder bytes
+    with optional fields, a final 0) — None if `v` is not a well-formed template. The length byte of a 10- or 13-byte piece is not a
+    line break."""
+    if not (v.startswith('b"') and v.endswith('"')):
+        return None
+    try:
+        import ast
+        raw = ast.literal_eval(v)
+    except Exception:
+        return None
+    out, i = b"", 0
+    while True:
+        if i >= len(raw):
+            return None
+        n = raw[i]
+        i += 1
+        if n == 0:
+            return out.decode("utf-8", "replace") if i == len(raw) else None
+        if n < 0x80:
+            if i + n > len(raw):
+                return None
+            out += raw[i:i + n]
+            i += n
+        elif n == 0x80:
+            if i + 2 > len(raw):
+                return None
+            ln = raw[i] | (raw[i + 1] << 8)
+            i += 2
+            if i + ln > len(raw):
+                return None
+            out += raw[i:i + ln]
+            i += ln
+        elif n >= 0xC0:
+            i += (4 if n & 1 else 0) + (2 if n & 2 else 0) + (2 if n & 4 else 0) + (2 if n & 8 else 0)
+        else:
+            return None
+
+
 def has_newline(v):
+    lit = fmt_template_text(v)
+    if lit is not None:
+        return "\n" in lit or "\r" in lit
     return "\\n" in v or "\\r" in v
 
 
@@ -397,6 +439,93 @@ def r13_1(ctx):
             ctx.violation(["flag-after-done"], "the flag-controlled write does not precede done()", site=site)
         else:
             ctx.ok("the flag controls exactly one write_output(line_ending), after the loop, before done()", site=site)
+        # .. and nothing else decides it: besides the option, the only condition of the final line ending is the pending-newline flag —
+        # the same flag that decides the separator written inside the loop. A third condition ("unless the last directive printed
+        # nothing") makes a source that ends in an ordinary text line lose its final line ending for reasons the option does not control.
+        def origins_of(l, seen=None):
+            """the flags a bool local is computed from: through copies, `!x`, `a & b` / `a | b` and constant assignments; a local with any
+            other kind of definition (a call result, a comparison) stands for itself"""
+            seen = set() if seen is None else seen
+            if l in seen:
+                return set()
+            seen.add(l)
+            if b.is_param(l):
+                return {l}
+            ds = b.defs().get(l, [])
+            out = set()
+            for rec in ds:
+                if rec[0] != "assign":
+                    return {l}
+                rv = rec[3]["rv"]
+                ops = []
+                if rv["k"] == "use":
+                    ops = [rv["op"]]
+                elif rv["k"] == "unop" and rv.get("op") == "Not":
+                    ops = [rv.get("a") or rv.get("op_") or rv.get("operand")]
+                elif rv["k"] == "binop" and rv.get("op") in ("BitAnd", "BitOr", "BitXor"):
+                    ops = [rv["a"], rv["b"]]
+                else:
+                    return {l}
+                for o in ops:
+                    if o is None:
+                        return {l}
+                    if o.get("k") == "const":
+                        continue
+                    pl = C.op_place(o)
+                    if pl is None or pl["p"]:
+                        return {l}
+                    out |= origins_of(pl["l"], seen)
+            return out if ds else {l}
+
+        def root(sbb):
+            pl = C.op_place(b.term(sbb)["discr"])
+            if pl is None or pl["p"]:
+                return None
+            return frozenset(origins_of(pl["l"]))
+
+        def deciders(target, in_loop):
+            out = {}
+            for sbb in C.switches(b):
+                if b.in_cycle(sbb) != in_loop:
+                    continue
+                es = [eid for eid, s_, lab in b.edges(sbb)]
+                after = [C.after_edges(b, {e}) for e in es]
+                reach = [target in a for a in after]
+                # an edge that completes the file (reaches done()) without the write — an early return (dependencies found, unused tags)
+                # is another exit, not a decision about the final line ending
+                skips = [not r and any(dbb in a for dbb, dt in dn) for r, a in zip(reach, after)]
+                if any(reach) and any(skips):
+                    out[sbb] = root(sbb)
+            return out
+        seps = [wbb for wbb, wt in calls_to(b, ROLE["write_output"]) if b.in_cycle(wbb) and
+                has_field(C.trace(b, wt["args"][1], through_fields=True), "line_ending")]
+        pend = set()
+        for wbb in seps:
+            # the innermost conditions of the in-loop separator: switches one of whose edges leads to the write without passing the loop head
+            heads = [hbb for hbb, ht in calls_to(b, ROLE["get_next_line"])]
+            for sbb in C.switches(b):
+                if not b.in_cycle(sbb):
+                    continue
+                es = [eid for eid, s_, lab in b.edges(sbb)]
+                reach = [wbb in C.after_edges(b, {e}, cut=out_edges(b, heads)) for e in es]
+                if any(reach) and not all(reach) and b.term(sbb).get("dty") == "bool":
+                    pend.add(root(sbb))
+        post = deciders(bb, False)
+        pend_all = set()
+        for r in pend:
+            pend_all |= set(r or ())
+        extra = {sbb: r for sbb, r in post.items() if r is None or not (set(r) <= (pend_all | {p}))}
+        if not seps or not pend:
+            ctx.unverified("no separator write inside the line loop decided by a flag: the pending-newline flag cannot be identified", site=site)
+        elif extra:
+            sbb = min(extra)
+            ctx.violation(["final-newline-extra-condition"], "the final line ending is decided by a condition other than the trailing-newline option "
+                          "and the pending-newline flag (test at %s%s): a source ending in a text line can lose its final line ending"
+                          % (ctx.site(b, sbb)["loc"], "".join(", local `%s`" % b.local_name(x) for x in sorted(set(extra[sbb] or ()) - pend_all - {p})
+                                                                 if b.local_name(x))),
+                          site=ctx.site(b, sbb))
+        else:
+            ctx.ok("the final line ending depends on the option and the pending-newline flag only", site=site)
 
 
 @rule("C13", "R13.2", floor=2)
@@ -414,8 +543,15 @@ def r13_2(ctx):
         for bb, t, how in rules_sched.file_spawn_sites(ctx, ef):
             if how.startswith("via "):
                 allowed_fns.add(how[4:])      # an extracted spawn helper between execute_file and the task closure
+    task_parts = set()
     if cl:
         allowed_fns.add(cl.name)
+        # closures spliced into the task closure (the task body handed to a generic `spawn(task)` helper): part of the task
+        for blk in cl.blocks:
+            ic = blk["term"].get("inlined_call") or blk["term"].get("inlined_closure")
+            if ic in lib.bodies and lib.bodies[ic].kind == "Closure":
+                task_parts.add(ic)
+        allowed_fns |= task_parts
     bad = []
     fields = []
     reached_fns = set()
@@ -431,7 +567,7 @@ def r13_2(ctx):
                 continue
             fields.append(n)
         elif n[0] == "u":
-            if cl and n[1] == cl.name:
+            if cl and (n[1] == cl.name or n[1] in task_parts):
                 continue
             bad.append(n)
     if fields:
